@@ -32,6 +32,6 @@ def check(ctx):
 def replay(ctx, path):
     r = json.load(open(path))["replay"]
     ctx.build()
-    f = os.path.join(ctx.scratch, "one.ndjson"); open(f, "w").write(json.dumps(r["case"]) + "\n")
+    f = os.path.join(ctx.scratch, "one.ndjson"); open(f, "w").write("".join(json.dumps(x) + "\n" for x in (r["case"] if isinstance(r["case"], list) else [r["case"]])))
     out = os.path.join(ctx.scratch, "one_res.ndjson")
     ctx.vh_ok(["c07-replay", f, out]); run_results(ctx, out, "replay")
